@@ -872,6 +872,7 @@ def runFull (std : Stdlib) (c : Json) : R (Json × Option Json × Option String)
   | "eval" => runEval std c
   | "unpack" => runUnpack std c
   | "roundtrip" => runRoundtrip std c
+  | "load" | "frontends" => pure (Json.mkObj [("unmodelled", .bool true)], none, none)
   | _ => do pure ((← runCase std c), none, none)
 
 partial def loop (std : Stdlib) (h : IO.FS.Stream) (out : IO.FS.Stream) : IO Unit := do
